@@ -63,6 +63,7 @@ type Atom struct {
 	Max  int         // AView: static upper bound of Len
 	Bs   []*smt.Term // ABytes: one Int term per byte
 	Prov *Prov       // provenance (opaque formatter output)
+	Alpha *[256]bool // AView: bytes the text can contain (nil = any); asserted when the view is made
 }
 
 // StrV is a Go string (rope of atoms). Also used for immutable []byte.
